@@ -538,7 +538,10 @@ pub fn conc_op(kind: &str, conns: &[&str]) -> Option<(String, String)> {
                 seed ^= seed >> 7;
                 seed ^= seed << 17;
                 let k = (1 + (seed % 9) as usize).min(data.len() - at);
-                s.write_all(&data[at..at + k]).ok()?;
+                // (a server that has ended this connection may refuse further bytes)
+                if s.write_all(&data[at..at + k]).is_err() {
+                    break;
+                }
                 at += k;
                 if seed % 3 == 0 {
                     std::thread::sleep(Duration::from_micros(200 + seed % 700));
